@@ -8,10 +8,11 @@ pub mod c06;
 pub mod c10;
 pub mod c11;
 pub mod c12;
+pub mod c19;
 
 use crate::engine::Cfg;
 
-pub const SCENARIOS: &[&str] = &["c01", "c02a", "c02b", "c03", "c05", "c06mpsc", "c06spsc", "c06mpmc", "c10s", "c10f", "c11c", "c11b", "c11w", "c12"];
+pub const SCENARIOS: &[&str] = &["c01", "c02a", "c02b", "c03", "c05", "c06mpsc", "c06spsc", "c06mpmc", "c10s", "c10f", "c11c", "c11b", "c11w", "c12", "c19v1", "c19plain"];
 
 pub fn run(name: &str, seed: u64, ov: impl FnMut(&mut Cfg)) -> ! {
     match name {
@@ -29,6 +30,8 @@ pub fn run(name: &str, seed: u64, ov: impl FnMut(&mut Cfg)) -> ! {
         "c11b" => c11::run_barrier(seed, ov),
         "c11w" => c11::run_waitgroup(seed, ov),
         "c12" => c12::run(seed, ov),
+        "c19v1" => c19::run_v1(seed, ov),
+        "c19plain" => c19::run_plain(seed, ov),
         _ => {
             eprintln!("unknown scenario {}", name);
             std::process::exit(2);
